@@ -243,7 +243,11 @@ def _work_inner(ident, prop, tier, tree):
                 rec["witness"] = w
                 rec["replay"] = rp
                 replay_by_oid[o.oid] = rp
-            if rec["status"] == "refuted" and getattr(k, "term_level", False) and replay_by_oid.get(o.oid, {}).get("reproduced") is False:
+            # `replay_gated`: single clauses of a contract that state a representation invariant stronger than the property (e.g. "the working
+            # array and the stored initial copy are distinct objects"): failing one is a violation only if some operation sequence on the real
+            # code then shows the property itself failing
+            gated = getattr(k, "term_level", False) or any(t in o.oid for t in getattr(k, "replay_gated", ()))
+            if rec["status"] == "refuted" and gated and replay_by_oid.get(o.oid, {}).get("reproduced") is False:
                 # the contract speaks about uninterpreted matrix terms (svd / qr / inv ... as opaque kernels): a "counter-model" of such an
                 # obligation only says that two terms are not syntactically forced to be equal - it is no input.  When the native stand-in
                 # (exact recovery on the real code) finds nothing either, the obligation is NOT a violation: it is undecided at this level and
@@ -468,7 +472,7 @@ def main(argv=None):
             term_und.setdefault(r["ident"], []).append(o)
     for ident, obs in term_und.items():
         ids = sorted({o["id"].split("/", 1)[1] for o in obs})
-        print(f"BOUNDED-FALLBACK {ident}: {len(obs)} obligation(s) over uninterpreted matrix terms are no longer provable ({'; '.join(ids)[:200]}); "
+        print(f"BOUNDED-FALLBACK {ident}: {len(obs)} obligation(s) over uninterpreted matrix terms / representation-only clauses are no longer provable ({'; '.join(ids)[:200]}); "
               f"they have no input-level counterexample and the native stand-in found no failing input: {str(obs[0].get('replay', {}).get('detail', ''))[:160]}")
     for r in errors:
         print(f"CHECKER-ERROR {r['ident']}: {r['error'][:1500]}")
